@@ -27,7 +27,7 @@ Record rawcur := { rc_edges : list bytes; rc_start : bytes; rc_end : bytes }.
 Record step := {
   s_args : args; s_sel : sel; s_tc : tcres; s_xpres : list xpres; s_obs : obs;
   s_calls : list (query * list edge);     (* each triple the getter received, and its answer *)
-  s_raised : list Z;                      (* per call: 0 = no error, 1 = an error, 2 = a typed nil error *)
+  s_raised : list Z;                      (* per call: 0 = no error, 1 = an error, 2 = a typed nil error, 3 = a non-slice value *)
   s_after_raw : option bytes;             (* the after / before argument strings as sent *)
   s_before_raw : option bytes;
   s_from_raw : option bytes;              (* the atOrAfterTime / beforeTime argument strings as sent *)
@@ -75,7 +75,7 @@ Definition dec_args (s : sexp) : option args :=
 
 Definition dec_gerr (i : nat) (z : Z) : option gerr :=
   if Z.eqb z 0 then Some NoErr else if Z.eqb z 1 then Some (Err (Z.of_nat i))
-  else if Z.eqb z 2 then Some TypedNilErr else None.
+  else if Z.eqb z 2 then Some TypedNilErr else if Z.eqb z 3 then Some BadValue else None.
 
 (** (promise nil error ...): the i-th call's error, when it raises one, is identified by i *)
 Definition dec_xpres (i : nat) (s : sexp) : option xpres :=
@@ -311,6 +311,9 @@ Definition at_outside_cursor (a : args) (e : edge) : bool :=
 
 Definition crash_key (ps : list pres) : string :=
   if existsb (fun p => by_promise p && nil_when_empty p) ps then "crash-promise-nil-result" else "crash".
+Definition crash_key_x (s : step) : string :=
+  if existsb (fun p => match xerr p with BadValue => true | _ => false end) (s_xpres s)
+  then "crash-non-slice-result" else crash_key (s_pres s).
 
 (** the calls (by index) in which the harness getter really raised an error *)
 Fixpoint raised_real (i : Z) (rs : list Z) : list Z :=
@@ -327,7 +330,7 @@ Definition oracle_step (E : list edge) (g : query -> list edge) (i : nat) (s : s
   let raised := raised_real 0 (s_raised s) in
   match s_obs s with
   | ObMalformed => fail "malformed-response" []
-  | ObCrash => fail (crash_key (s_pres s)) []
+  | ObCrash => fail (crash_key_x s) []
   | ObHang => fail "hang" []
   | ObError msgs =>
       if negb (args_ok a) then None
@@ -335,12 +338,14 @@ Definition oracle_step (E : list edge) (g : query -> list edge) (i : nat) (s : s
       then fail "error-not-raised-by-any-issued-call" []
       else if existsb (fun m => match m with MTC => negb (tc_fails s) | _ => false end) msgs
       then fail "total-count-error-out-of-nothing" []
-      else if existsb (fun m => match m with MOther => true | _ => false end) msgs || match msgs with [] => true | _ => false end
+      else if (existsb (fun m => match m with MOther => true | _ => false end) msgs && negb (existsb (Z.eqb 3) (s_raised s)))
+              || match msgs with [] => true | _ => false end
       then fail "error-on-valid-arguments" []
       else None
   | ObPage es cs info tot =>
       if negb (args_ok a) then None     (* not this property's business; the model comparison sees it *)
       else if match raised with [] => false | _ => true end then fail "page-despite-getter-error" []
+      else if existsb (Z.eqb 3) (s_raised s) then fail "page-despite-non-slice-answer" []
       else if tc_fails s then fail "page-despite-total-count-error" []
       else if negb (match tot, want_total (s_sel s), s_tc s with
                     | Some n, true, TCVal m => Z.eqb n m
@@ -466,6 +471,7 @@ Definition compare_step (E : list edge) (g : query -> list edge) (i : nat) (s : 
                           | MG k, EGetter id => Z.eqb k id
                           | MTC, ETotal _ => true
                           | MOther, EBogus => true
+                          | MOther, ENonSlice => true
                           | _, _ => false
                           end in
   match mo, s_obs s with
@@ -599,7 +605,7 @@ Definition step_classes (E : list edge) (g : query -> list edge) (s : step) : li
                  | XArgError, XArgError => true
                  | XPanic, XPanic => true
                  | _, _ => false
-                 end)) "typed-nil-error-fix-matters"
+                 end)) "typed-nil-or-non-slice-fix-matters"
   ++ cond (match arg_of_wire (s_after_raw s), arg_of_wire (s_before_raw s) with Some _, Some _ => false | _, _ => true end)
           "cursor-string-outside-codec-model"
   ++ cond (match s_from_raw s, s_to_raw s with Some _, _ => true | _, Some _ => true | _, _ => false end) "datetime-string-parsed-by-model"
@@ -607,6 +613,8 @@ Definition step_classes (E : list edge) (g : query -> list edge) (s : step) : li
                    [s_from_raw s; s_to_raw s]) "datetime-string-outside-parser-model"
   ++ cond (match s_after_raw s, s_before_raw s with
            | Some (_ :: _), _ => true | _, Some (_ :: _) => true | _, _ => false end) "cursor-string-decoded-by-model"
+  ++ cond (existsb (Z.eqb 3) (s_raised s)) "non-slice-answer"
+  ++ cond (existsb (Z.eqb 3) (s_raised s) && negb (match raised_real 0 (s_raised s) with [] => true | _ => false end)) "non-slice-answer-and-getter-error"
   ++ cond (want_total (s_sel s)) "total-count"
   ++ cond (tc_fails s) "total-count-error"
   ++ cond (want_total (s_sel s) && match fst (fst xm), snd (fst xm) with XPage _ _ _, [] => true | _, _ => false end) "total-count-without-fetch"
@@ -665,7 +673,7 @@ Definition check (c : sexp) : sexp :=
           match map_opt dec_edge es, dec_getter gk, dec_kind k, map_opt dec_step ss with
           | Some E, Some mk, Some kd, Some steps =>
               if negb (nodupb E) then v_bad "duplicate-cursors-in-data-set"
-              else if negb (forallb (fun s => forallb (fun cr => Z.eqb (snd cr) 1 || call_honoured E (mk E) (fst cr))
+              else if negb (forallb (fun s => forallb (fun cr => Z.eqb (snd cr) 1 || Z.eqb (snd cr) 3 || call_honoured E (mk E) (fst cr))
                                                       (combine (s_calls s) (s_raised s))) steps)
               then v_bad "harness-getter-does-not-honour-the-triple"
               else
